@@ -87,6 +87,11 @@ CHECKS = {
          "The matrix is finite and run completely: 34 methods x 6 users x 2 graphs x 12 policies (spy layer), BulkAdd filtering for every graph pattern of length <= 3, every method with no accounts configured, and 4 (quick) / 7 (thorough) policies x users x graphs x methods x {gRPC, HTTP} on a live server. Held on all of them.",
          "Trusted: the 10-line policy evaluator and the operation-class rule in c05.go (derived from the documentation, not from accounts.MethodMap); on the live server a refusal is recognised from status codes.",
          "5/C05"),
+ "C11": ("exploration",
+         "differential runtime monitor on a live server: every generated traversal is submitted as a job and its stored rows, status count and every element-typed resume split are compared with the direct traversal through the same gRPC server; search answers are compared with a prefix-match model; a restart scenario re-opens the job store on the same directory",
+         "Held on every explored case: 30 hand-picked traversals of all result types and result sizes around the pool/buffer boundaries plus 80 / 1500 random traversals, each with every resume split; a 12-job / 17-query search scenario; a restart-then-delete scenario (listed, status, readable, resumable, then gone incl. files).",
+         "Engine vs engine (no model) for stored rows and resume; the 10-line prefix model for search. Completion is awaited by bounded polling (inconclusive if exceeded).",
+         "5/C11"),
 }
 
 NOT_YET = "check not built yet in this session (design in DESIGN.md section 5); claimed once the monitor exists and is silent on the unchanged tree"
